@@ -362,11 +362,18 @@ class InputFileScenario(BaseScenario):
         judged_keys = changed if kind in ("set", "validate") else list(aged.ui_json)
         stale = sorted(k for k in judged_keys if k in aged.ui_json and isinstance(aged.ui_json[k], dict) and "optional" in (aged.validations or {}).get(k, {})
                        and aged.validations[k]["optional"] == requires_value(aged.ui_json, k))
+        typeless = [k for k in judged_keys if isinstance(aged.ui_json.get(k), dict) and aged.ui_json[k].get("value") is None
+                    and not any(m in aged.ui_json[k] for m in ("choiceList", "meshType", "parent", "isValue", "fileType", "groupType"))]
         ver_t = call_t_result = verdict(call_t)
         ver_a = verdict(call_a)
         del call_t_result
         if "obj" in changed:
             sim.probe("parent_changed")
+        # a plain form whose current value is None declares no type (a fresh object falls back to str, the aged one
+        # remembers the type of the value it was built with): type verdicts on such a key are not comparable
+        if typeless and "TypeValidationError" in (ver_a[0], ver_t[0]) and (ver_a[0] == "accept") != (ver_t[0] == "accept"):
+            sim.probe("typeless_form_not_judged")
+            return "not_judged"
         # the verdict is accept / reject; which exception class reports a rejection is not part of it
         if (ver_a[0] == "accept") != (ver_t[0] == "accept"):
             raise Violation("C15", "verdict_differs", f"{what}: the aged object says {ver_a[0]} ({ver_a[1]}), a fresh one on the same form says {ver_t[0]} ({ver_t[1]})",
